@@ -62,6 +62,7 @@ def run(ck: Checker, prog: Program, tier: str):
     ck.guard(S.check_masked_reads, ck, prog, cls, "C05.R1", floor=4)
     ck.guard(S.check_accessor_purity, ck, prog, cls, "C05.R2", 13)
     ck.guard(S.check_estimators, ck, prog, "C05.R3")
+    ck.guard(S.check_alias_discipline, ck, prog, "C05.R3", floor=3)
     ck.guard(S.check_accessor_table, ck, prog, cls, "C05.R3", TABLE, GUARDS)
     ck.guard(_cov, ck, prog, cls, "C05.R3", weighted=False)
     ck.guard(S.check_mask_lockstep, ck, prog, "C05.R4")
@@ -84,46 +85,63 @@ def _single_window_guard(ck: Checker, prog: Program, cls):
 
 
 def _cov(ck: Checker, prog: Program, cls, rule: str, weighted: bool):
+    """cov_fn as a table over the accepted spellings of the distribution: for every key of DISTRIBUTION_MAP the value returned is
+    np.cov of (frequencies, amplitudes) - of their logarithms when the key names the lognormal assumption - and any other name is refused."""
+    from ..pathtable import PathTable, literals, holds, specialise, KEYERROR
+    from .common import pkg_call_hook
     m = cls.methods.get("cov_fn")
     if m is None:
         raise AnalysisError(f"{cls.name}.cov_fn not found")
-    T = S.translator_for(prog, m, cls)
-    from ..expr import forward_substitute
-    top = [st for st in m.node.body if isinstance(st, ast.Assign)]
-    # the distribution alias resolution is a lookup; keep the symbol
-    top = [st for st in top if unparse(st.targets[0]) != "distribution"]
-    forward_substitute(top, T)
-    rets = S.returns_of(m)
-    if len(rets) != 1:
-        ck.violation(rule, m.qualname, "single return", f"{len(rets)} return statements", loc=m.loc())
-    got = T.tr(rets[-1].value)
+    F = sp.Function
+    base = pkg_call_hook(prog, m.module, cls)
+
+    def hook(call, T):
+        if call_name(call) == "cov" and isinstance(call.func, ast.Attribute):
+            return F("cov")(*[T.tr(a) for a in call.args], *[F("kw_" + k.arg)(T.tr(k.value)) for k in call.keywords if k.arg])
+        return base(call, T)
+    leaves = PathTable(prog, m.module, call_hook=hook, unroll=True).leaves(m.node.body)
+    D = sp.Symbol("distribution", real=True)
+    FR, AM = sp.Symbol("self.peak_frequencies", real=True), sp.Symbol("self.peak_amplitudes", real=True)
     if weighted:
-        want = S.expect(prog, m, "np.cov(np.concatenate(self.peak_frequencies), np.concatenate(self.peak_amplitudes), "
-                                 "aweights=self._compute_statistical_weights())", cls)
-        kws = {k.arg for c in [rets[-1].value] if isinstance(c, ast.Call) for k in c.keywords}
-        kw_ok = kws == {"aweights"}
+        FR, AM = F("concatenate")(FR), F("concatenate")(AM)
+        tail = [F("kw_aweights")(F("_compute_statistical_weights")(sp.Symbol("self", real=True)))]
     else:
-        want = S.expect(prog, m, "np.cov(self.peak_frequencies, self.peak_amplitudes, ddof=1)", cls)
-        kws = {k.arg for c in [rets[-1].value] if isinstance(c, ast.Call) for k in c.keywords}
-        kw_ok = kws == {"ddof"}
-    if equal(got, want) and kw_ok:
-        ck.ok(rule, m.qualname, norm_key(rets[-1]))
-    else:
-        ck.violation(rule, m.qualname, norm_key(rets[-1]), f"covariance is {got} (keywords {sorted(kws)}); expected {want}", loc=m.loc(rets[-1]))
-    # lognormal branch takes logs of both
-    logs = {}
-    for st in own_nodes(m.node):
-        if isinstance(st, ast.If) and "lognormal" in unparse(st.test):
-            for b in st.body:
-                if isinstance(b, ast.Assign) and isinstance(b.value, ast.Call) and call_name(b.value) == "log" \
-                        and unparse(b.value.args[0]) == unparse(b.targets[0]):
-                    logs[unparse(b.targets[0])] = True
-    if set(logs) == {"frequencies", "amplitudes"}:
+        tail = [F("kw_ddof")(sp.Integer(1))]
+    dm = prog.registry("constants", "DISTRIBUTION_MAP")
+    worlds = [(k, v.value) for k, v in dm.items() if isinstance(v, ast.Constant)] + [("<other>", None)]
+    problems = []
+    for key, canon in worlds:
+        world = {D: sp.Symbol(f"'{key}'")}
+        outcomes = []
+        for l in leaves:
+            conds = [specialise(c, world) for c in literals(l)]
+            truth = [holds(c, world) for c in conds]
+            if any(t is False for t in truth):
+                continue
+            val = specialise(l.value, world) if l.value is not None else None
+            failed = any(KEYERROR in sp.sympify(x).free_symbols for x in conds + ([val] if val is not None else []))
+            handler = any("raised(" in str(c) for c in conds)
+            outcomes.append((l, val, failed, handler))
+        normal = [o for o in outcomes if not o[3] and not o[2]]
+        chosen = normal if normal else [o for o in outcomes if o[3]] or outcomes
+        # conditions that are still undecided after specialisation split on something other than the name: not a table over names
+        for l, val, failed, handler in chosen:
+            if canon is None:
+                if l.exit != "raise" and not failed:
+                    problems.append(f"the unknown name {key} is not refused (returns {val})")
+                continue
+            if failed or l.exit == "raise":
+                problems.append(f"the accepted name '{key}' is refused")
+                continue
+            tf = (lambda x: x) if canon == "normal" else sp.log
+            want = F("cov")(tf(FR), tf(AM), *tail)
+            if val is None or not equal(val, want):
+                problems.append(f"for '{key}' the covariance is {val}; expected {want}")
+        if not chosen:
+            problems.append(f"no path for the name '{key}'")
+    if not problems:
+        ck.ok(rule, m.qualname, "covariance per accepted distribution name", detail=f"{len(worlds) - 1} names: cov of the values (normal) / of their logarithms (lognormal); other names refused")
         ck.ok(rule, m.qualname, "lognormal: log of frequencies and amplitudes")
     else:
-        ck.violation(rule, m.qualname, "lognormal covariance", f"log taken of {sorted(logs)}; expected both frequencies and amplitudes", loc=m.loc())
-    # normal branch leaves the data alone; unknown names raise
-    for st in own_nodes(m.node):
-        if isinstance(st, ast.If) and unparse(st.test).endswith("== 'normal'"):
-            if not all(isinstance(b, ast.Pass) for b in st.body):
-                ck.violation(rule, m.qualname, "normal covariance", "the normal branch transforms the data", loc=m.loc(st))
+        for pr in sorted(set(problems))[:3]:
+            ck.violation(rule, m.qualname, "covariance", pr, loc=m.loc())
